@@ -488,5 +488,15 @@ def run(repo, tier):
             r.ob("R7.4", "typesystem.py::Type.__new__ miss path", good, "a new type is not inserted exactly once", loc(trel, tn))
             ok = True
     if not ok:
+        # the same protocol in one call: `return <table>.setdefault(obj, obj)` returns the registered object on a hit and inserts once on a miss
+        for n_ in ast.walk(tn):
+            if isinstance(n_, ast.Return) and isinstance(n_.value, ast.Call) and isinstance(n_.value.func, ast.Attribute) and n_.value.func.attr == "setdefault" \
+                    and (dotted(n_.value.func.value) or "").endswith("._types") and len(n_.value.args) == 2:
+                a0, a1 = n_.value.args
+                same = isinstance(a0, ast.Name) and isinstance(a1, ast.Name) and a0.id == a1.id
+                r.ob("R7.4", "typesystem.py::Type.__new__ hit path", same, "setdefault(key, value) registers a different object than the key", loc(trel, n_))
+                r.ob("R7.4", "typesystem.py::Type.__new__ miss path", same, "setdefault(key, value) registers a different object than the key", loc(trel, n_))
+                ok = True
+    if not ok:
         raise AnalysisError("Type.__new__: table lookup not recognised")
     return r
